@@ -334,6 +334,10 @@ class TaskManager(rpu.ClientComponent):
                 tasks = list()
                 for task in self._tasks.values():
 
+                    # only tasks bound to this pilot and not yet final
+                    if task.pilot != pid or task.state in rps.FINAL:
+                        continue
+
                     update = {'uid'             : task.uid,
                               'exception'       : 'RuntimeError("pilot died")',
                               'exception_detail': 'pilot %s is final' % pid,
